@@ -51,8 +51,8 @@ def getOrCreate (s : State) (p : Nat) : State × Entry :=
     ({ table := s.table ++ [e], queues := s.queues ++ [{ id := s.nextId, peer := p }], nextId := s.nextId + 1 }, e)
 
 def connected (s : State) (p : Nat) : State :=
-  let (s, e) := getOrCreate s p
-  { s with table := s.table.map fun x => if x.peer == p then { e with refcnt := e.refcnt + 1 } else x }
+  let s := (getOrCreate s p).1
+  { s with table := s.table.map fun x => if x.peer == p then { x with refcnt := x.refcnt + 1 } else x }
 
 /-- `GetProcess`: (state, id of the returned process) -/
 def getProcess (s : State) (p : Nat) : State × Nat :=
@@ -65,7 +65,7 @@ def disconnected (s : State) (p : Nat) : State :=
   | none => s
   | some e =>
     if e.refcnt - 1 > 0 then
-      { s with table := s.table.map fun x => if x.peer == p then { e with refcnt := e.refcnt - 1 } else x }
+      { s with table := s.table.map fun x => if x.peer == p then { x with refcnt := x.refcnt - 1 } else x }
     else
       { s with table := s.table.filter (·.peer != p), queues := setQueue s.queues e.qid ({ · with pending := true }) }
 
